@@ -134,6 +134,24 @@ def limit_programs(quick):
                     left -= take
                     fi += 1
                 P.append(("constants-near-full-then-closure-%s-%d" % (where, total), "let z = 2; let __o = [];\n" + "\n".join(parts) + "\n" + tail, ("obs-or-reject", ["4"]), "binary-slow"))
+    # ---- two-byte operands in use (values 256..), with the values read back: globals defined, read and ASSIGNED beyond
+    # index 255, constants, function literals and builtins reached through high constant-pool indices, literals of 256+
+    # elements indexed at the far end
+    for n in (300, 700) if quick else (257, 300, 700, 5000):
+        lets = " ".join("let g%d = %d;" % (i, i) for i in range(n))
+        hi, mid = n - 1, n - 40
+        src = ("let __o = []; %s g%d = 777000; g%d = g%d + 1000; fn bump() { g%d = g%d + 1; g%d } push(__o, [g%d, g%d, g%d, g%d, g0, g1, bump(), g%d]);"
+               % (lets, mid, hi, hi, mid + 1, mid + 1, mid + 1, mid, mid & 0xFF, hi, hi & 0xFF, mid + 1))
+        exp = "[777000, %d, %d, %d, 0, 1, %d, %d]" % ((mid & 0xFF) if (mid & 0xFF) != mid else 777000, hi + 1000, hi & 0xFF, mid + 2, mid + 2)
+        P.append(("wide-globals-assigned-%d" % n, src, ("obs", [exp]), "probe"))
+        consts = ", ".join(str(100000 + i) for i in range(n))
+        src = ("let __o = []; let big = [%s]; fn late() { [%d, \"late\"] } let lam = fn(x) { x + %d }; push(__o, [big[%d], big[%d], big[255], big[256], len(big), late(), lam(1), len(\"tail-%d\")]);"
+               % (consts, 900000 + n, 800000 + n, n - 1, (n - 1) & 0xFF, n))
+        exp = "[%d, %d, 100255, 100256, %d, [%d, \"late\"], %d, %d]" % (100000 + n - 1, 100000 + ((n - 1) & 0xFF), n, 900000 + n, 800001 + n, len("tail-%d" % n))
+        P.append(("wide-constants-in-use-%d" % n, src, ("obs", [exp]), "probe"))
+        pairs = ", ".join("%d: g" % i for i in range(n))
+        src = "let __o = []; let g = 5; let m = map {%s}; let arr = [%s]; push(__o, [len(m), m[%d], len(arr), arr[%d]]);" % (pairs, ", ".join("g" for _ in range(n)), n - 1, n - 1)
+        P.append(("wide-literals-in-use-%d" % n, src, ("obs", ["[%d, 5, %d, 5]" % (n, n)]), "probe"))
     # ---- backward jumps (the closing jump of loop / while, continue) are emitted with their final target
     for n, far in ((15000, False), (16500, True)):
         body = " ".join("a;" for _ in range(n))
@@ -169,7 +187,7 @@ def run(chk):
                        "repository's DEFINITIONS table", "array literals above 4096 elements cannot run (operand stack size); only their "
                        "compilation is judged"]
     chk.floor = 300
-    chk.rule += '; plus captured variables summed over two enclosing levels, direct && / || / filter-action long jumps, backward long jumps'
+    chk.rule += '; plus captured variables summed over two enclosing levels, direct && / || / filter-action long jumps, backward long jumps, two-byte operands in use with the values read back (globals assigned beyond index 255, high constant-pool indices, literals of 256+ elements), a window of constant-pool sizes around 65536 followed by a capturing function literal'
     # (iii) round trip
     r = core.run_one("", {"full": 1} if not quick else {}, cmd="OPCODES", timeout=1200)
     if "checked" not in r:
